@@ -100,6 +100,10 @@ def cases(tier, rng):
     for k in ["H", "h", "C##", "c##", "Fb", "db", "e#", "am", "Cmaj", "x", "B#", "a##", "G", "e", "Cb", "a#"]:
         for f in STRFNS:
             yield Case("twice:" + f, [k], "key/asked-twice", model=False)
+    # unknown keys that contain characters with a meaning in %-formatting or str.format (error messages are formatted)
+    for k in ["{", "}", "C{", "{1}", "{key}", "{}", "{0}", "%", "%s", "%d", "C%", "%(key)s", "100%", "{{", "a}", "\\", "%%s"]:
+        for f in STRFNS:
+            yield Case(f, [k], "key/format-characters")
     for i in list(range(-20, 21)) + [rng.randint(-2**63, 2**63) for _ in range(20)]:
         yield Case("keys.get_key", [i], "get_key/" + ("in" if -7 <= i <= 7 else "out"))
     alpha = "CcAaFf#bH"
